@@ -256,11 +256,48 @@ fn do_write(rep: &mut Report, a: u64, data: &[u8], pat: Option<(usize, u64)>, b:
     // (`data.drop idx` per chunk, as the Rust slices): in the big grid only a deterministic
     // subsample of the many-chunk cases goes to the model; the oracle above covers all of them.
     let chunks_est = if b > 20 { data.len() / (b - 20) } else { 0 };
+    if src == "boundary-random-nomodel" {
+        return;
+    }
     if src == "grid" && chunks_est > 64 && (data.len() + b) % 11 != 0 {
         rep.count("write:grid-many-chunks(oracle only, not sent to model)");
         return;
     }
     rep.expect(req, d);
+}
+
+/// `ReadMem::maximum_read_length`: the size by which the production read path splits its buffer.
+fn do_maxread(rep: &mut Report, b: usize) {
+    let r = catch(|| ReadMem::maximum_read_length(b));
+    rep.case(&format!("maxread {b}"), b > 12);
+    rep.count("maxread");
+    let ans = match r {
+        Err(()) => {
+            rep.violation(json!({"kind": "maximum-read-length", "what": "panic"}), "maximum_read_length panics",
+                json!({"op": "maxread", "budget": b.to_string()}));
+            "panic".to_string()
+        }
+        Ok(m) => {
+            let want = b.saturating_sub(12).min(65535) as u16;
+            if m != want {
+                rep.violation(json!({"kind": "maximum-read-length", "what": "wrong-value"}),
+                    &format!("maximum_read_length({b}) = {m}, payload room clamped to u16 is {want}"),
+                    json!({"op": "maxread", "budget": b.to_string()}));
+            }
+            // agreement with the iterator: the first chunk of a maximal request has exactly this length
+            if b > 12 {
+                if let Ok(Ok(cs)) = impl_read(0, u16::MAX, b) {
+                    if cs.first().map(|c| c.1) != Some(m as u64) {
+                        rep.violation(json!({"kind": "maximum-read-length", "what": "differs-from-iterator"}),
+                            &format!("maximum_read_length({b}) = {m} but the iterator's first chunk of a 65535-byte read is {:?}", cs.first()),
+                            json!({"op": "maxread", "budget": b.to_string()}));
+                    }
+                }
+            }
+            format!("ok {m}")
+        }
+    };
+    rep.expect(format!("c10 maxread {} {b}", profile()), ans);
 }
 
 fn main() {
@@ -277,7 +314,9 @@ fn main() {
         let r = &v["replay"];
         let a: u64 = r["address"].as_str().unwrap().parse().unwrap();
         let b: usize = r["budget"].as_str().unwrap().parse().unwrap();
-        if r["op"] == "read" {
+        if r["op"] == "maxread" {
+            do_maxread(&mut rep, b);
+        } else if r["op"] == "read" {
             do_read(&mut rep, a, r["len"].as_u64().unwrap() as u16, b, "replay");
         } else {
             do_write(&mut rep, a, &unhex(r["data"].as_str().unwrap()), None, b, "replay");
@@ -286,6 +325,24 @@ fn main() {
         return;
     }
 
+    // minimised past failures first
+    if let Ok(dir) = std::fs::read_dir("/verif/corpus/C10") {
+        let mut files: Vec<_> = dir.filter_map(|e| e.ok()).map(|e| e.path()).collect();
+        files.sort();
+        for f in files {
+            if let Ok(v) = serde_json::from_str::<Value>(&std::fs::read_to_string(&f).unwrap_or_default()) {
+                let r = &v["replay"];
+                let b: usize = r["budget"].as_str().unwrap_or("0").parse().unwrap_or(0);
+                match r["op"].as_str() {
+                    Some("maxread") => do_maxread(&mut rep, b),
+                    Some("read") => do_read(&mut rep, r["address"].as_str().unwrap_or("0").parse().unwrap_or(0), r["len"].as_u64().unwrap_or(0) as u16, b, "corpus"),
+                    Some("write") => do_write(&mut rep, r["address"].as_str().unwrap_or("0").parse().unwrap_or(0), &unhex(r["data"].as_str().unwrap_or("-")), None, b, "corpus"),
+                    _ => {}
+                }
+                rep.count("corpus");
+            }
+        }
+    }
     let (max_len, max_budget) = if args.thorough() { (4096usize, 600usize) } else { (520, 100) };
     for n in 0..=max_len {
         for b in 0..=max_budget {
@@ -300,6 +357,12 @@ fn main() {
     }
     rep.extra.insert("grid".into(), json!({"lengths": format!("0..={max_len}"), "budgets": format!("0..={max_budget}"), "exhaustive_over_grid": true}));
 
+    for b in 0..=700usize {
+        do_maxread(&mut rep, b);
+    }
+    for b in [65535usize, 65535 + 11, 65535 + 12, 65535 + 13, 70000, (1 << 32) - 1, 1 << 32, (1 << 32) + 13, usize::MAX - 1, usize::MAX] {
+        do_maxread(&mut rep, b);
+    }
     let budgets: Vec<usize> = vec![
         0, 1, 11, 12, 13, 14, 19, 20, 21, 22, 23, 24, 64, 255, 256, 257, 512, 1024, 4095, 4096, 65535 + 11,
         65535 + 12, 65535 + 13, 65535 + 19, 65535 + 20, 65535 + 21, 70000, 1 << 20, (1usize << 32) - 1,
@@ -326,19 +389,20 @@ fn main() {
         }
         // the list-based model is quadratic for huge data with tiny budgets: keep only a few such cases
         let heavy = b > 20 && (n as u128 * n as u128) / ((b - 20) as u128) > 40_000_000;
+        let mut model_ok = true;
         if heavy {
             heavy_seen += 1;
             if heavy_seen > 3 {
-                rep.count("write:skipped-heavy-for-model");
-                continue;
+                rep.count("write:heavy(oracle only, not sent to model)");
+                model_ok = false;
             }
         }
         if i % 4 == 0 {
             let seed = rng.below(5);
-            do_write(&mut rep, a, &pattern(n, seed), Some((n, seed)), b, "boundary-random");
+            do_write(&mut rep, a, &pattern(n, seed), Some((n, seed)), b, if model_ok { "boundary-random" } else { "boundary-random-nomodel" });
         } else if n < 3000 {
             let d = rng.bytes(n);
-            do_write(&mut rep, a, &d, None, b, "boundary-random-bytes");
+            do_write(&mut rep, a, &d, None, b, if model_ok { "boundary-random-bytes" } else { "boundary-random-nomodel" });
         }
     }
     rep.write(&args);
